@@ -125,6 +125,8 @@ def build_cases(ctx: Ctx, n_random: int, sizes: list[int], with_corpus: bool, mu
         defs.append({"kind": "small", "blk": d})
     for d in pvlib.enumerate_loop_tails():
         defs.append({"kind": "loop_tail", "blk": d})
+    for d in pvlib.enumerate_terminal_forks():
+        defs.append({"kind": "terminal_fork", "blk": d})
     if f_adjacent:
         # outside F (C01/C02 do not quantify over them: with nothing after the outer loop the exit is unobservable and
         # the learner is not sound there); C05's clauses are stated for every emitted file
